@@ -19,7 +19,10 @@ import (
 //   - records which files a run wrote and what it wrote there (the oracle's "the file that run
 //     wrote" no longer depends on the rewritten bytes differing from the old ones);
 //   - in pass-through mode (tx == false) forwards every operation to localnonvcs at once: the
-//     semantics of the repository's local back end, bit for bit;
+//     semantics of the repository's local back end, bit for bit (write-through, Destroy drops
+//     nothing). A fault in this mode is counted PER FILE of a WriteOrCreateFiles call: the files of
+//     the batch before the failing one are on disk, the failing one and those after it are not
+//     (what localnonvcs itself does when one os.WriteFile of the batch fails);
 //   - in transactional mode (tx == true) behaves like a version-control workspace: writes are staged,
 //     reads see the staged files first, TryCommit publishes them through localnonvcs, Destroy drops
 //     them. The failAt-th mutating operation (WriteOrCreateFiles, SetBinaryWritable, TryCommit;
@@ -96,17 +99,20 @@ type recOps struct {
 }
 
 func (o *recOps) WriteOrCreateFiles(ctx context.Context, files ...*endorse.File) error {
-	if o.v.fault() {
-		return fmt.Errorf("write of %d file(s): %w", len(files), errInjected)
-	}
 	if !o.v.tx {
-		if err := o.in.WriteOrCreateFiles(ctx, files...); err != nil {
-			return err
-		}
-		for _, f := range files {
+		for i, f := range files {
+			if o.v.fault() {
+				return fmt.Errorf("write of file %d of %d (%q): %w", i+1, len(files), f.Path, errInjected)
+			}
+			if err := o.in.WriteOrCreateFiles(ctx, f); err != nil {
+				return err
+			}
 			o.v.publish(f.Path, f.Contents)
 		}
 		return nil
+	}
+	if o.v.fault() {
+		return fmt.Errorf("write of %d file(s): %w", len(files), errInjected)
 	}
 	for _, f := range files {
 		p := path.Clean(f.Path)
